@@ -47,6 +47,36 @@ def dimension_specs(r):
     return out
 
 
+def extra_column_specs(r):
+    """trailing extra columns whose text happens to be a JSON document (or is empty): exactly one such column, and such a
+    column among several, under a few attribute styles.  A column is text: the parsed `extra` is the list of the column
+    texts and the printed line is the input line"""
+    out = []
+    texts = gen_spec.EXTRA_POOL + [" 7 ", " ", "[1, 2]", '{"ID":["a"]}', "1.0", "-0", "nul", "tru", '"', "[", "1 2"]
+    shapes = [("eq", False, ";", [("ID", ["g1"]), ("Name", ["abc"])]),
+              ("space", True, "; ", [("gene_id", ["g1"]), ("transcript_id", ["t1"])]),
+              ("eq", False, ";", [])]
+    for t in texts:
+        for extra in ([t], [t, "x"], ["x", t], [t, t], [t, ""], ["", t], [t, "12", "null"]):
+            for style, q, sep, attrs in (shapes if len(extra) == 1 else [r.choice(shapes)]):
+                s = gen_spec.Spec()
+                s.mode = "extra_columns"
+                s.sep, s.trailing, s.style, s.quoted, s.repeated = sep, False, style, q, False
+                s.attrs = [(k, list(v)) for k, v in attrs]
+                s.cols = gen_spec.rand_cols(r)
+                s.extra = list(extra)
+                out.append(s)
+    return out
+
+
+def safe_impl_line(line, dialect, strict, keep):
+    """pyside.impl_line, also when the parsed Feature cannot be rendered in the protocol (e.g. `extra` is not a list)"""
+    try:
+        return pyside.impl_line(line, dialect, strict, keep)
+    except Exception as ex:
+        return "unrenderable " + type(ex).__name__
+
+
 def feature_cols(f):
     return [f.seqid, f.source, f.featuretype, "." if f.start is None else str(f.start),
             "." if f.end is None else str(f.end), f.score, f.strand, f.frame]
@@ -62,7 +92,7 @@ def oracle_spec(s, row):
         return "feature_from_line raised %r" % ex
     if feature_cols(f) != list(s.cols):
         return "columns differ: %r" % (feature_cols(f),)
-    if list(f.extra) != list(s.extra):
+    if not isinstance(f.extra, list) or f.extra != list(s.extra):
         return "extra columns differ: %r" % (f.extra,)
     got = [(k, list(v)) for k, v in f.attributes._d.items()]
     if got != [(k, list(v)) for k, v in s.attrs]:
@@ -112,7 +142,7 @@ def run(ctx):
     finally:
         constants.ignore_url_escape_characters = False
     n = 6000 if not ctx.thorough else 80000
-    specs = dimension_specs(r) + [gen_spec.rand_spec(r, valid=(i % 5 != 0)) for i in range(n)]
+    specs = dimension_specs(r) + extra_column_specs(r) + [gen_spec.rand_spec(r, valid=(i % 5 != 0)) for i in range(n)]
     rows = pc.run_specs(ctx, specs)
     cmds, exp, tags = [], [], []
     for i, s in enumerate(specs):
@@ -142,11 +172,18 @@ def run(ctx):
             if why:
                 res.oracle_failures.append((why, {"line": row["line"], "spaces": row["spaces"]}))
             cmds.append(pyside.cmd_line(row["spaces"], None, False, False))
-            exp.append(pyside.impl_line(row["spaces"], None, False, False))
+            exp.append(safe_impl_line(row["spaces"], None, False, False))
             tags.append(("feature_from_line(strict=False)", row["spaces"]))
         cmds.append(pyside.cmd_line(row["line"], None, True, True))
-        exp.append(pyside.impl_line(row["line"], None, True, True))
+        exp.append(safe_impl_line(row["line"], None, True, True))
         tags.append(("feature_from_line+str", row["line"]))
+        if s.extra and (s.mode == "extra_columns" or i % 4 == 0):
+            # the tab form under strict=False (the line is stripped first, then split at tabs): correspondence only
+            cmds.append(pyside.cmd_line(row["line"], None, False, True))
+            exp.append(safe_impl_line(row["line"], None, False, True))
+            tags.append(("feature_from_line(strict=False, tab form with extra columns)", row["line"]))
+        if s.extra:
+            res.count("extra_columns_%d%s" % (len(s.extra), "_jsonlike" if any(x in gen_spec.JSON_EXTRA for x in s.extra) else ""))
         if row["wf"] and row["mapping"] is not None:
             # the theorem's instance on the model itself (cannot fail while the theorems check)
             cmds.append(pyside.cmd_split(row["line"].split("\t")[8]))
@@ -170,7 +207,7 @@ def run(ctx):
             if not strict and r.random() < 0.5:
                 line = line.replace("\t", " ")
             cmds.append(pyside.cmd_line(line, None, strict, True))
-            exp.append(pyside.impl_line(line, None, strict, True))
+            exp.append(safe_impl_line(line, None, strict, True))
             tags.append(("feature_from_line (malformed)", line))
         else:
             cmds.append(pyside.cmd_split(s))
@@ -180,7 +217,7 @@ def run(ctx):
     # repository data files -----------------------------------------------------------------------
     for l in pc.data_file_lines(400 if not ctx.thorough else 100000):
         cmds.append(pyside.cmd_line(l, None, True, True))
-        exp.append(pyside.impl_line(l, None, True, True))
+        exp.append(safe_impl_line(l, None, True, True))
         tags.append(("feature_from_line (data file)", l))
         res.count("data_file_lines")
     res.evaluations += len(cmds)
@@ -197,14 +234,25 @@ def run(ctx):
 
 
 def replay(ctx, payload):
-    from gffutils.feature import feature_from_line
     res = common.Result("C07")
     i = payload.get("input", {})
-    if "line" in i:
-        line = i["line"]
-        f = feature_from_line(line, keep_order=True)
-        print("replay: line=%r\n        printed=%r" % (line, str(f)))
-        res.evaluations = 1
-        if str(f) != line:
-            res.oracle_failures.append(("printed line differs", i))
+    why = None
+    if "spec" in i and "line" in i:
+        why = oracle_spec(gen_spec.Spec.from_dict(i["spec"]), {"line": i["line"]})
+    elif "spaces" in i and "line" in i:
+        why = oracle_spaces(i)
+    elif "line" in i:
+        from gffutils.feature import feature_from_line
+        try:
+            printed = str(feature_from_line(i["line"], keep_order=True))
+            why = None if printed == i["line"] else "printed line differs: %r" % printed
+        except Exception as ex:
+            why = "parsing / printing raised %r" % ex
+    else:
+        print("replay: no line in this file")
+        return res
+    res.evaluations = 1
+    print("replay: line=%r\n        %s (%s)" % (i["line"], why or "the property holds on this line", common.repo_dir()))
+    if why:
+        res.oracle_failures.append((why, i))
     return res
